@@ -115,6 +115,12 @@ func (s *verifFaultServer) serve(c net.Conn, i int, sc verifTCPAttempt, o *verif
 		if strings.HasPrefix(sc.When, "closeN") && body.Len() >= sc.N {
 			return
 		}
+		if sc.When == "statusN" && body.Len() >= sc.N {
+			// answer in the middle of the body and stop reading: the transport gives the status to the agent
+			answer(sc.Status)
+			time.Sleep(200 * time.Millisecond)
+			return
+		}
 		if err == io.EOF {
 			complete = true
 			break
@@ -192,7 +198,7 @@ func verifRunTransport(out *verifOut, tc verifTransportCase) {
 	select {
 	case hr = <-hdone:
 		handlerReturned = true
-	case <-time.After(30 * time.Second):
+	case <-time.After(12 * time.Second):
 	}
 	time.Sleep(100 * time.Millisecond)
 	srv.mu.Lock()
@@ -231,6 +237,15 @@ func TestVerifC06Transport(t *testing.T) {
 			verifTransportCase{Name: "close-mid-body-then-ok", Size: size, First: size, Script: []verifTCPAttempt{{When: "closeN", N: size / 2}, ok}},
 		)
 	}
+	// every attempt is refused while the handler still has most of its body to write: the handler must not stay blocked
+	for _, size := range []int{5000, 100000, 1000000} {
+		cases = append(cases,
+			verifTransportCase{Name: "early-5xx-every-attempt", Size: size, First: 1, Script: []verifTCPAttempt{early, early, early, early}},
+			verifTransportCase{Name: "5xx-mid-body-every-attempt", Size: size, First: 2, Script: []verifTCPAttempt{{When: "statusN", N: 512, Status: 503}, {When: "statusN", N: 512, Status: 503}, {When: "statusN", N: 512, Status: 503}, {When: "statusN", N: 512, Status: 503}}},
+		)
+	}
+	// a single 5xx past the replay limit: no retry is possible, the upload gives up
+	cases = append(cases, verifTransportCase{Name: "5xx-past-replay-limit", Size: 100000, First: 3, Script: []verifTCPAttempt{{When: "statusN", N: 8192, Status: 503}, ok}})
 	for _, size := range []int{10, 3000} {
 		cases = append(cases, verifTransportCase{Name: "early-500-while-streaming", Size: size, First: 1, Gated: true, Script: []verifTCPAttempt{early, ok}})
 	}
